@@ -32,7 +32,7 @@ def SchedDesc.next : SchedDesc → Nat → Nat
   | .periodic p o, t => periodicNext p o t
   | .zero, _ => 0
   | .finite p o lim, t => let x := periodicNext p o t; if x ≤ lim then x else 0
-  | .delay d, t => t + d
+  | .delay d, t => t - t % 1000 + d   -- ConstantDelaySchedule counts from the start of t's second (units: ms)
 
 def parseDesc (s : String) : Option SchedDesc :=
   match s.splitOn ":" with
